@@ -1,6 +1,7 @@
 /- Line-protocol driver: one JSON object per line in, one per line out, same order. -/
 import Driver.TextOps
 import Driver.ParseOps
+import Driver.GenOps
 open Lean
 
 def handleLine (line : String) : String :=
@@ -15,6 +16,7 @@ def handleLine (line : String) : String :=
            op == "chunk" || op == "cond_chunk" || op.startsWith "comment." then TextOps.handle op j
         else if ["parse", "c05", "c16", "sro", "find_fqn", "find_any", "ids_t", "ids_notations"].contains op then
           ParseOps.handle op j
+        else if op.startsWith "portsel." || op.startsWith "cpp." then GenOps.handle op j
         else .error s!"unknown op {op}"
       match r with
       | .ok out => out.compress
